@@ -205,6 +205,17 @@ CHECKS['C07'] = dict(
          'thresholds and the scaling/squaring stage (s, ell(B,13)) are not decided. The native replay compares with scipy.linalg.expm on '
          'well-conditioned matrices in the norm band of the order concerned. Trusted: textbook Pade coefficients (2m-k)!/(k!(m-k)!).',
     design='§3 C07, §4')
+CHECKS['C12'] = dict(
+    text='PARTIAL. Decided by the solver: in the dimension-3 closed form (EigenSystemSU3.txt, executed symbolically with all 9 components '
+         'symbolic and sqrt/cbrt/pow/carg/clog/cexp as uninterpreted atoms) which divisors can vanish for finite inputs -- every divisor that '
+         'is a polynomial in the inputs, and the polynomial base of every pow/sqrt/cbrt atom occurring in a divisor; each satisfying '
+         'assignment is completed to a concrete operator and run on the real code, which must return finite values with M V = V diag(L) and '
+         'V unitary. Not decided: validity for degenerate/near-degenerate spectra and all of dimensions 2,4,5,6 (GSL); those are exercised '
+         'by a native battery of structured inputs and call histories whose findings are reported and labelled as such.',
+    note='OUTSIDE: gsl_eigen_hermv (compiled, iterative) for d != 3; the residual/unitarity identity for d = 3 (complex cube roots, '
+         'cancellation). Three pre-existing defects of the d=3 closed form are recorded in known_findings.txt (not repaired: a correct '
+         'treatment of structured and degenerate 3x3 inputs needs a different algorithm, not a small patch).',
+    design='§3 C12, §4, §5')
 NA_REASON = 'check not built yet (framework under construction; see DESIGN.md)'
 NA = {}
 
